@@ -9,6 +9,7 @@ from . import rules_skipnan as RK
 from . import rules_hist as RH
 from . import rules_terms as RT
 from . import rules_zones as RZ
+from . import rules_segments as RSG
 from .facts import AnchorMissing
 
 TRUSTED = [
@@ -119,6 +120,8 @@ def c04(ctx):
     ctx.floor("R11", n11, 3, "NotNone constructions")
     n14 = RU.rule_r14(ctx, prog)
     ctx.floor("R14", n14, 4, "rand call sites")
+    RSG.rule_r21_compaction(ctx, prog)
+    RZ.run_zones(ctx, prog, prog.find("maybe_nan::remove_nan_mut"), lambda st, za: None, "true (any view)", floor=8)
     # the 14 element types: every MaybeNan impl's remove_nan_mut goes through the same audited path
     impls = [b for b in prog.bodies.values() if b.name == "remove_nan_mut" and " as maybe_nan::MaybeNan>" in b.key]
     ctx.floor("R3", len(impls), 14, "MaybeNan::remove_nan_mut impls (f32, f64, 12 Option types)")
@@ -135,8 +138,12 @@ def c04(ctx):
                     "negative strides via offset (len-1)*stride + invert_axis), size/align asserts dominate the pointer cast, NotNone is "
                     "repr(transparent) with a private field; (R3) every unsafe block/fn is in the audited inventory and tied to its guard "
                     "(cast only of the compacted view, cast to NotNone only where is_none() is false, unreachable_unchecked only in the "
-                    "None arm); (R11) NotNone is only built from values known Some; (R14) no randomness. Not decided: the loop invariant "
-                    "of the two-pointer compaction (that the prefix holds exactly the non-missing elements) and idempotence.",
+                    "None arm); (R11) NotNone is only built from values known Some; (R14) no randomness; (R21) the two-pointer compaction's "
+                    "postcondition is proved by candidate-invariant checking over segment predicates: inductive invariants "
+                    "∀k<i ¬nan, ∀k>j nan, (i ≤ j ⇒ nan(a[i])) hold at the three loop heads and every return is the prefix view[..x] "
+                    "with ∀k<x ¬nan(view[k]) and ∀k≥x nan(view[k]) – with R4 (only swaps) the result holds exactly the non-missing "
+                    "elements and its length is their count; (R18) its index arithmetic cannot panic. Idempotence follows (a NaN-free "
+                    "prefix is returned unchanged: first loop runs to the end) but is not checked separately.",
     )
 
 
@@ -429,18 +436,27 @@ def c18(ctx):
 def c15(ctx):
     prog = ctx.prog("dev")
     RZ.rule_r18_partition(ctx, prog)
+    RSG.rule_r22_partition(ctx, prog)
+    # only data movement is swap (so the result is a permutation: with R22, k = number of strictly smaller elements)
+    eff = RE.Effect(ctx, prog, "R4")
+    eff.add_entry(prog.method("Sort1dExt", "partition_mut"), [1])
+    eff.run()
+    ctx.floor("R4", eff.n_swaps, 3, "swap sites in partition_mut")
     # structural side conditions recorded with the clause: the only data movement is swap (R4 on this function) and the
     # pivot is read by a bounds-checked index first (R5)
     mc = RS.MustCheck(ctx, prog, rule="R5[dev]")
     mc.strict(prog.method("Sort1dExt", "partition_mut"), 2)
     return dict(
         level="other",
-        explanation="Only the clause 'never panics for an in-range pivot position, including on a single-element array' is decided: a zone "
-                    "(difference-bound) abstract interpretation of partition_mut's dev-profile MIR under the precondition pivot_index < len "
-                    "computes invariants (1 ≤ i ≤ len, j ≤ len−1, branch refinements incl. disequality tightening) and must discharge every "
-                    "overflow Assert (n−1, i+=1, j−=1, i−1) and every bounds precondition of Index/swap. Sound for all array contents because "
-                    "element comparisons are treated as non-deterministic. The value-level postconditions (rank, strict/weak sides) are not "
-                    "decided by static analysis here.",
+        explanation="(R18) a zone (difference-bound) abstract interpretation of partition_mut's dev-profile MIR under the precondition "
+                    "pivot_index < len discharges every overflow Assert (n−1, i+=1, j−=1, i−1) and every bounds precondition of Index/swap: "
+                    "no panic for an in-range pivot, including length 1. (R22) the value-level postcondition is proved by "
+                    "candidate-invariant checking over segment predicates on top of the zone states: the invariants a[0] = pv, "
+                    "∀k∈[1,i): a[k] < pv, ∀k∈(j,len): a[k] ≥ pv, (i ≤ j ⇒ a[i] ≥ pv) are inductive at the three loop heads and on every "
+                    "return path the returned k satisfies a[k] = pv, ∀x<k: a[x] < pv, ∀x>k: a[x] ≥ pv (swap aliasing decided by case "
+                    "split). (R4) the only data movement is swap, so the array is a permutation of the input and k is the number of "
+                    "elements strictly smaller than the pivot value. Element predicates come only from the comparisons the code makes, "
+                    "so the proof holds for every array content, duplicates included. Trusted: Ord is a lawful total order.",
     )
 
 
